@@ -186,7 +186,7 @@ Proof. intros. unfold upd_dh. rewrite !get_fold_put. auto. Qed.
 
 Lemma sorted_upd_decl : forall n d m, sorted m -> sorted (upd_decl n d m).
 Proof.
-  unfold upd_decl. intros n d. induction (d_decl d); simpl; intros; auto.
+  unfold upd_decl. intros n d. induction (d_reg d); simpl; intros; auto.
   destruct (get _ [a]); auto. apply sorted_put. auto.
 Qed.
 
@@ -194,10 +194,10 @@ Lemma get_upd_decl : forall n d m k,
   get (upd_decl n d m) k =
   match get m k with
   | Some a => Some a
-  | None => if existsb (fun h => keqb k [h]) (d_decl d) then Some n else None
+  | None => if existsb (fun h => keqb k [h]) (d_reg d) then Some n else None
   end.
 Proof.
-  unfold upd_decl. intros n d. induction (d_decl d); simpl; intros.
+  unfold upd_decl. intros n d. induction (d_reg d); simpl; intros.
   - destruct (get m k); auto.
   - destruct (get (foldd _ l m) [a]) eqn:E.
     + rewrite IHl. destruct (get m k) eqn:E1; auto.
@@ -264,6 +264,8 @@ Record VS (s : st) (d : diff) : Prop := mkVS {
   vs_dep : forall e, In e (d_deploy d) -> is_sys (fst e) = false;
   vs_rep : forall e, In e (d_replace d) -> is_sys (fst e) = false;
   vs_non : forall e, In e (d_nonce d) -> is_sys (fst e) = false;
+  (* a class delivered with the block without being declared is the class of one of its deployed contracts *)
+  vs_deliv : forall h, In h (d_deliv d) -> In h (map snd (d_deploy d));
   vs_guard : forall a, is_sys a = true -> touched d a = true ->
              has_store (upd_store (d_store d) (s_store s)) a = true
 }.
@@ -296,9 +298,22 @@ Proof. unfold sys_new. intros. apply in_map_iff in H. destruct H as [x [Hx Hin]]
 Lemma touched_in : forall d e, In e (d_store d) -> touched d (fst (fst e)) = true.
 Proof. unfold touched. intros. apply existsb_exists. exists e. split; auto. apply N.eqb_refl. Qed.
 
+Lemma mem_In : forall l x, mem l x = true -> In x l.
+Proof.
+  unfold mem. intros. apply existsb_exists in H. destruct H as [y [Hin E]]. apply N.eqb_eq in E. subst. auto.
+Qed.
+
+Lemma deliv_ok_incl : forall d, deliv_ok d = true -> forall h, In h (d_deliv d) -> In h (map snd (d_deploy d)).
+Proof.
+  unfold deliv_ok. intros d H h Hin. apply andb_true_iff in H. destruct H as [_ H].
+  rewrite forallb_forall in H. apply H in Hin. apply andb_true_iff in Hin. destruct Hin as [Hin _].
+  apply mem_In. auto.
+Qed.
+
 Lemma valid_diffb_VS : forall s d, valid_diffb s d = true -> sys_guard s d = true -> VS s d.
 Proof.
-  unfold valid_diffb. intros s d H G. repeat (apply andb_true_iff in H; destruct H as [H ?]).
+  unfold valid_diffb. intros s d H G. apply andb_true_iff in H. destruct H as [H DL].
+  repeat (apply andb_true_iff in H; destruct H as [H ?]).
   rewrite forallb_forall in H0, H1, H2, H3.
   assert (Dep : forall e, In e (d_deploy d) -> is_sys (fst e) = false /\ get (s_class s) [fst e] = None).
   { intros e Hin. apply H3 in Hin. apply andb_true_iff in Hin. destruct Hin as [A B].
@@ -326,6 +341,7 @@ Proof.
   - intros. apply Dep; auto.
   - intros. apply Rep; auto.
   - intros e Hin. apply H1 in Hin. apply andb_true_iff in Hin. destruct Hin as [A _]. apply negb_true_iff in A. auto.
+  - apply deliv_ok_incl. auto.
   - intros a Ha Ht. unfold sys_guard in G. rewrite forallb_forall in G. apply is_sys_in in Ha.
     apply G in Ha. rewrite Ht in Ha. simpl in Ha. auto.
 Qed.
